@@ -210,6 +210,13 @@ def run(run):
             c5 = Context(objs, props + ['extra'], [tuple(r) + (False,) for r in bools])
             if (c4 == c) or not (c4 != c) or (c5 == c) or not (c5 != c):
                 run.fail('contexts with different property tuples compare equal', None, None, [line])
+            objs7 = list(objs)
+            objs7[rng.randrange(n)] = 'renamed object'
+            c7 = Context(objs7, props, bools)
+            if (c7 == c) or not (c7 != c) or (c == c7) or not (c != c7):
+                run.fail('contexts with different object tuples compare equal (== / != must be complementary)', None, None, [line])
+            if not (Context(objs, props, bools) == c) or (Context(objs, props, bools) != c):
+                run.fail('equal contexts: == / != are not complementary', None, None, [line])
             d.shape, d.fill_ratio            # read, edit, read again: cached attributes must not go stale
             d.add_object('fresh-object', [props[0]])
             c6 = Context(*d)
